@@ -172,9 +172,9 @@ fn spell_char(rng: &mut Rng, c: char, quote: char, o: &mut String) {
 fn spell_str(rng: &mut Rng, s: &str) -> (String, &'static str) {
     let quote = if rng.chance(1, 2) { '\'' } else { '"' };
     match rng.below(6) {
-        0 if !s.contains(quote) && !s.contains('\\') => {
-            // raw string: nothing is an escape
-            (format!("r{}{}{}", quote, s, quote), "raw")
+        0 if !s.contains(quote) => {
+            // raw string: nothing is an escape - a backslash is a backslash wherever it stands, also right before the closing quote
+            (format!("r{}{}{}", quote, s, quote), if s.contains('\\') { "raw-with-backslash" } else { "raw" })
         }
         1 => {
             // f-string without interpolation
